@@ -22,11 +22,19 @@ from cgroup import Case
 from cprop import CompilerProp
 
 ID = "C01"
-LEAN_MODULES = ["FaxVerif.C01.Theorems", "FaxVerif.C01.TheoremsMiniAod", "FaxVerif.C01.TheoremsLazy"]
+LEAN_MODULES = ["FaxVerif.C01.Theorems", "FaxVerif.C01.TheoremsMiniAod", "FaxVerif.C01.TheoremsLazy", "FaxVerif.C01.TheoremsNested"]
 LEAN_SOURCES = ["FaxVerif/C01", "FaxVerif/Gen", "FaxVerif/Cpp", "FaxVerif/Linq"]
 DRIVER = cgroup.DRIVER
-SETUP_MODULES = cgroup.DRIVER_IMPORTS + ["FaxVerif.Gen.Lazy"]  # what the drivers import
+SETUP_MODULES = cgroup.DRIVER_IMPORTS + ["FaxVerif.Gen.Lazy", "FaxVerif.Gen.Nested"]  # what the drivers import
 THEOREMS = [
+    "FaxVerif.C01.inner_loop_is_fold",
+    "FaxVerif.C01.inner_aggregate_correct",
+    "FaxVerif.C01.nestedRows_correct_partial",
+    "FaxVerif.C01.nestedEventRows_correct_partial",
+    "FaxVerif.C01.twoD_column_correct_partial",
+    "FaxVerif.Gen.compNE_correct",
+    "FaxVerif.Gen.innerLoop_correct",
+    "FaxVerif.Gen.pushCol_correct",
     "FaxVerif.C01.lazy_expr_correct",
     "FaxVerif.C01.lazy_expr_block_correct",
     "FaxVerif.C01.elemRowsL_correct_partial",
@@ -56,6 +64,9 @@ THEOREMS = [
 RULE = (
     "stream 'tie': random queries of the fragment F0-lite (chains coll.{Select|Where}* with pure lambdas, Count/Sum, arithmetic, "
     "event-level rows with scalar and vector columns, element-level rows), model text vs implementation text on the three backends; "
+    "stream 'nested-tie': random queries of the nested fragment (inner chains over method-returned collections inside lambdas: "
+    "per-element Count/Sum vector columns, 2-D columns, element-level rows with inner aggregates), Gen.compileN text vs implementation "
+    "text on the three backends, the model's package executed per event and as one job against denote; "
     "stream 'lazy-tie': random queries of the lazy fragment (element-level rows whose columns and Where conditions use n-ary and/or "
     "and if-else, arbitrarily nested), Gen.compileL text vs implementation text on the three backends, and the model's package "
     "executed on events with null elements against denote; "
@@ -76,13 +87,13 @@ LEVEL_TEXT = (
     "Lean 4 compiler-correctness theorems for a compositional model of the translator on the fragment F0-lite, for every query of "
     "the fragment (unbounded chain length, expression size, number of columns), every event, every number model, END TO END for the "
     "whole emitted package: event-level rows with scalar (Count/Sum/arithmetic incl. the int/int division cast), vector and First "
-    "columns (eventRows_correct_partial), element-level rows (elemRows_correct_partial) and element-level rows whose columns and Where conditions contain and / or / if-else in any nesting, lowered to guarded statements (elemRowsL_correct_partial; expression level in both directions: lazy_expr_correct, C04.lazy_expr_faults_equal), on ATLAS, CMS AOD and — with the token table the package itself emits proved to bind every retrieval to its bank (miniaod_token_table) — CMS miniAOD (eventRows_correct_miniaod_partial, elemRows_correct_miniaod_partial, which also give the class state left behind); plus the building blocks: pure expressions "
+    "columns (eventRows_correct_partial), element-level rows (elemRows_correct_partial) and element-level rows whose columns and Where conditions contain and / or / if-else in any nesting, lowered to guarded statements (elemRowsL_correct_partial; expression level in both directions: lazy_expr_correct, C04.lazy_expr_faults_equal), and NESTED iteration — a lambda whose body iterates a collection returned by a method of the element: per-element inner Count/Sum (accumulator declared in the outer loop body), 2-D vector columns with their storage vector, element-level rows with inner aggregates (inner_aggregate_correct, nestedEventRows_correct_partial, twoD_column_correct_partial, nestedRows_correct_partial) — on ATLAS, CMS AOD and — with the token table the package itself emits proved to bind every retrieval to its bank (miniaod_token_table) — CMS miniAOD (eventRows_correct_miniaod_partial, elemRows_correct_miniaod_partial, which also give the class state left behind); plus the building blocks: pure expressions "
     "with faults (pure_expr_correct), the loop as a fold (loop_is_fold), the fused-Where and-lowering, hoisted declarations. The model is tied to the real translator on every run by text equality on generated fragment queries (three "
-    "backends). Beyond the fragment (nested loops, First inside expressions, and/or/if-else in Select bodies and event-level expressions, 2-D columns) the property is "
+    "backends). Beyond the fragment (nesting deeper than two loops, inner SelectMany, First inside expressions, and/or/if-else in Select bodies and event-level expressions, 2-D columns) the property is "
     "checked by executing the implementation's own output in the Lean semantics against the Lean denotation — differential, not proof."
 )
 LEVEL_NOTE = (
-    "Proof frontier: F0-lite as stated (no loops nested inside lambdas, and/or/if-else only in row columns and Where conditions of element-level rows (conditional arms floating), no 2-D columns); "
+    "Proof frontier: F0-lite + lazy + nested fragments as stated (one level of loops nested inside lambdas over method-returned collections with pure inner steps, and/or/if-else only in row columns and Where conditions of element-level rows (conditional arms floating), no 2-D columns); "
     "success direction only. Defect exclusions (listed in known_findings.jsonl with concrete "
     "inputs, the generator stays outside them): aggregates/First over SelectMany inside a lambda; lambda bodies that ignore their "
     "variable under First/aggregates; sequence-valued columns in element-level rows; Min/Max seeded with 0; Range with computed bounds; "
@@ -175,6 +186,22 @@ def lazy_tie_stream(ctx, n):
         ctx.disagreement("Gen.compileL executed vs denote (model instance)", case, first.get("exec"), first.get("denote"))
     else:
         ctx.disagreement("Gen.compileL vs translator (lazy fragment, text modulo renaming)", case, first.get("model_body"), first.get("impl_body") or first.get("what"))
+
+
+def nested_tie_stream(ctx, n):
+    """text tie of Gen.compileN (loops nested inside lambdas: inner aggregates, 2-D columns) with the real translator"""
+    import gentie_nested
+
+    agree, total, first = gentie_nested.run_stream(ctx, n)
+    if first is None:
+        return
+    case = {"backend": first.get("backend"), "source": first.get("source"), "fq": first.get("fq") or first.get("nq"), "first_difference": first.get("first_difference")}
+    if first.get("kind") == "refused":
+        ctx.violation(key=f"nested|{first.get('backend')}|{first.get('source')}", what=first.get("what"), case=case, observed=first.get("what"))
+    elif first.get("kind") == "model-instance":
+        ctx.disagreement("Gen.compileN executed vs denote (model instance)", case, first.get("exec"), first.get("denote"))
+    else:
+        ctx.disagreement("Gen.compileN vs translator (nested fragment, text modulo renaming)", case, first.get("model_body"), first.get("impl_body") or first.get("what"))
 
 
 JOBCFG = {"cms_aod": "analyzer_cfg.py", "cms_miniaod": "analyzer_cfg.py"}
@@ -360,6 +387,7 @@ def run(ctx):
     eljob_stream(ctx)
     tie_stream(ctx, n_tie)
     lazy_tie_stream(ctx, 90 if ctx.tier == "quick" else 1500)
+    nested_tie_stream(ctx, 90 if ctx.tier == "quick" else 1500)
     # the differential stream (known findings were replayed above)
     saved = _P.known
     _P.known = lambda c: None
